@@ -54,6 +54,7 @@ type c26Env struct {
 	depth     int
 	top       bool // scanning the handler's own statement list
 	keyVar    string // loop variable ranging over the key-bearing children of the entry (KeyValues, KeySlicePairs, Patches)
+	nilIsOk   bool   // the response message has no fields: `return nil, nil` is an ordinary success
 }
 
 func (e *c26Env) clone() *c26Env {
@@ -230,6 +231,11 @@ func (e *c26Env) cond(x ast.Expr) (string, bool) {
 			// `err != nil || !isExist` after IsExistSwamp: the error is hydra-internal, not request-dependent
 			if v.Op == token.LOR && e.f.Str(v.X) == "err != nil" {
 				return e.cond(v.Y)
+			}
+			if bx, ok := v.X.(*ast.BinaryExpr); ok && v.Op == token.LOR && bx.Op == token.NEQ && e.f.Str(bx.Y) == "nil" {
+				if id, ok := bx.X.(*ast.Ident); ok && e.existVar["err:"+id.Name] {
+					return e.cond(v.Y)
+				}
 			}
 			l, ok1 := e.cond(v.X)
 			r, ok2 := e.cond(v.Y)
@@ -410,7 +416,7 @@ func (e *c26Env) classifyReturn(r *ast.ReturnStmt) string {
 	ex := r.Results[e.errIdx]
 	s := e.f.Str(ex)
 	if s == "nil" {
-		if e.nres == 2 && e.f.Str(r.Results[0]) == "nil" {
+		if e.nres == 2 && e.f.Str(r.Results[0]) == "nil" && !e.nilIsOk {
 			return "oknil"
 		}
 		return "ok"
@@ -662,6 +668,17 @@ func (cx *c26Ctx) scanIf(e *c26Env, v *ast.IfStmt, p *c26Prog) bool {
 			return cx.checkNameCall(e, call, f.Str(as.Lhs[len(as.Lhs)-1]), inner, p)
 		}
 	}
+	// `if isExist, existErr := hydra.IsExistSwamp(island, name); existErr != nil || !isExist { … }`: the existence test
+	// a handler makes itself before it summons (IsExistSwamp only looks, it does not create)
+	if as, ok := v.Init.(*ast.AssignStmt); ok && len(as.Rhs) == 1 && len(as.Lhs) == 2 && as.Tok == token.DEFINE {
+		if call, ok := as.Rhs[0].(*ast.CallExpr); ok && strings.HasSuffix(f.Str(call.Fun), ".IsExistSwamp") {
+			e.existVar[f.Str(as.Lhs[0])] = true
+			e.existVar["err:"+f.Str(as.Lhs[1])] = true
+			inner := *v
+			inner.Init = nil
+			return cx.scanIf(e, &inner, p)
+		}
+	}
 	if e.hasBodyCall(v) {
 		p.add("body")
 		p.ended = "body"
@@ -835,6 +852,9 @@ func (cx *c26Ctx) checkNameCall(e *c26Env, call *ast.CallExpr, errVar string, nx
 		mode = "fp"
 	case strings.Contains(body, "codes.NotFound") && retKinds["err"] == 1 && only("err") && hasContinue:
 		mode = "nf"
+	case strings.Contains(body, "st.Code() == codes.FailedPrecondition") && !strings.Contains(body, "codes.NotFound") && retKinds["err"] == 1 && only("err") && hasContinue:
+		// Count: a missing swamp (FailedPrecondition from checkSwampName) is answered per entry, anything else fails the request
+		mode = "fp"
 	case len(rets) == 0 && hasContinue:
 		mode = "all"
 		pre.List = nx.Body.List[:len(nx.Body.List)-1]
@@ -1025,6 +1045,11 @@ func (cx *c26Ctx) handler(fn c26Fn, kind string) c26Handler {
 	env := &c26Env{f: f, entry: map[string]bool{}, strEntry: map[string]bool{}, boolLoc: map[string]string{}, capVar: map[string]string{},
 		existVar: map[string]bool{}, singleVar: map[string]bool{}}
 	env.nres, env.errIdx = c26Results(f, fd)
+	if kind == "unary" && fd.Type.Results != nil && len(fd.Type.Results.List) > 0 {
+		if nf, ok := cx.respType[strings.TrimPrefix(f.Str(fd.Type.Results.List[0].Type), "*hydrapb.")]; ok && nf == 0 {
+			env.nilIsOk = true
+		}
+	}
 	// request parameter
 	reqVar := ""
 	for _, fld := range fd.Type.Params.List {
